@@ -3,7 +3,7 @@
    The side conditions on the table are decided here by computation. *)
 Require Import ZArith List Lia Bool.
 Require Import AV.Foam.Buf AV.Foam.Syntax AV.Foam.Codec AV.Foam.CodecFacts AV.Foam.CodecFacts2
-               AV.Foam.CodecFacts3 AV.Foam.LibHdr AV.Foam.LibHdrFacts
+               AV.Foam.CodecFacts3 AV.Foam.CodecFacts4 AV.Foam.LibHdr AV.Foam.LibHdrFacts AV.Foam.LibHdrFacts2
                AV.Gen.FoamInfo.
 Import ListNotations.
 Local Open Scope Z_scope.
@@ -58,6 +58,7 @@ Proof. apply (mk_hdr_wf LP LP_ok). exact ex_lunit_wf. Qed.
 Definition dec_enc_current := dec_enc FP FP_ok.
 Definition sintreduce_value_current := sintreduce_value FP FP_ok.
 Definition canon_idempotent_current := canon_idempotent FP FP_ok.
+Definition resave_identical_current := resave_identical FP FP_ok.
 Definition hdr_roundtrip_current := hdr_roundtrip LP.
 
 Lemma sections_contiguous_current u :
@@ -78,3 +79,19 @@ Qed.
 Definition reader_total_current := reader_total LP.
 Definition intact_loaded_current := intact_loaded_hdr LP LP_ok.
 Definition truncation_refused_current := truncation_refused LP LP_ok.
+
+Lemma single_byte_header_dichotomy_partial_current u k b :
+  wf_lunit LP u ->
+  ((Z.to_nat (lp_hdr_size LP) <= k)%nat ->
+     read_lib LP (subst_nth k b (write_lib LP u)) = Loaded (mk_hdr LP u)) /\
+  ((k < 2)%nat -> 0 <= b < 256 -> b <> nth k (write_lib LP u) 0 ->
+     read_lib LP (subst_nth k b (write_lib LP u)) = Refused BadMagic).
+Proof.
+  intros Hwf. split.
+  - intros Hk. now apply (body_damage_loaded LP LP_ok).
+  - intros Hk Hb Hne. now apply (magic_damage_refused LP LP_ok).
+Qed.
+
+Example ex_magic_damage :
+  read_lib LP (subst_nth 1 0 (write_lib LP ex_lunit)) = Refused BadMagic.
+Proof. vm_compute. reflexivity. Qed.
